@@ -352,6 +352,7 @@ pub struct Agg {
     pub conformant: u64,
     pub panics: u64,
     pub probes: BTreeMap<String, u64>,
+    pub maxes: BTreeMap<String, u64>,
     pub fired: BTreeMap<String, u64>,
     pub states: BTreeSet<u64>,
     pub trigrams: BTreeSet<u64>,
@@ -373,6 +374,7 @@ pub fn aggregate(reports: &[RunReport]) -> Agg {
         conformant: 0,
         panics: 0,
         probes: BTreeMap::new(),
+        maxes: BTreeMap::new(),
         fired: BTreeMap::new(),
         states: BTreeSet::new(),
         trigrams: BTreeSet::new(),
@@ -398,6 +400,12 @@ pub fn aggregate(reports: &[RunReport]) -> Agg {
         a.errors += s.errors_returned;
         for (k, v) in &s.probes {
             *a.probes.entry(k.clone()).or_insert(0) += v;
+        }
+        for (k, v) in &s.maxes {
+            let e = a.maxes.entry(k.clone()).or_insert(0);
+            if *v > *e {
+                *e = *v;
+            }
         }
         for (k, v) in &r.fired {
             *a.fired.entry(k.clone()).or_insert(0) += v;
@@ -558,6 +566,7 @@ pub fn check(args: &[String]) -> i32 {
             "runs_per_hour": if batch.wall > 0.0 { agg.evaluations as f64 / batch.wall * 3600.0 } else { 0.0 },
             "faults_fired": agg.fired,
             "probes": agg.probes,
+            "maxima": agg.maxes,
             "probes_never_hit": zero_probes,
             "distinct_model_cache_states": agg.states.len(),
             "distinct_event_outcome_trigrams": agg.trigrams.len(),
